@@ -341,6 +341,13 @@ def gen_ear(rng, tier):
             sc = geo_cfg("full", 1, rng_, True, rng.randrange(6), s)
             triples(rng, sc, n, 5 if rng_[1] <= 4 else 9)
             scen.append(sc)
+    # a strength that does not come as a fixed number: mapped from a modulator or from the listener distance, also to values
+    # beyond 0..1 (which mean 0 and 1); `s` is the strength in force, `sraw` what the mapping puts out
+    for sraw, mode in ((2000, "mod"), (-500, "mod"), (750, "mod"), (2000, "dist"), (-500, "dist"), (1500, "fixed"), (-300, "fixed")):
+        sc = geo_cfg("ear-source", 1, (1.0, 4.0), False, 0, max(0, min(1000, sraw)))
+        sc["sraw"], sc["smode"] = sraw, mode
+        triples(rng, sc, n // 4, 3)
+        scen.append(sc)
     # emitters inside the listener's head (offsets up to 1/4 in steps of 1/64): every law except "the emitter's side"
     for s in (500, 1000):
         sc = geo_cfg("head", 64, (1.0, 4.0), False, 0, s, side=False)
